@@ -484,6 +484,7 @@ func m3Execute(sc *m3Scenario, choose sched.Chooser) (ev []M, steps []sched.Step
 
 type m3Stats struct {
 	execs, events, steps, stuck int
+	broken                      int
 	distinct                    map[string]bool
 	exhausted                   bool
 	stuckMsg                    string
@@ -503,6 +504,12 @@ func m3Emit(tr *Trace, side *Trace, sc *m3Scenario, ev []M, steps []sched.Step, 
 	ss := schedString(steps)
 	side.Emit(M{"x": execSeq, "scenario": sc.Name, "sched": ss, "stuck": stuck})
 	st.execs++
+	for _, e := range ev {
+		if e["e"] == "deadlock" || e["e"] == "panic" {
+			st.broken++ // executions that ended in a deadlock or a panic: each costs seconds (blocked goroutines are waited for)
+			break
+		}
+	}
 	st.events += len(ev) + 2
 	st.steps += len(steps)
 	if stuck != "" {
@@ -569,7 +576,7 @@ func m3DFS(sc *m3Scenario, tr, side *Trace, st *m3Stats, maxExecs int, descendin
 			return
 		}
 		stack[len(stack)-1].idx++
-		if st.execs >= maxExecs {
+		if st.execs >= maxExecs || st.broken >= m3MaxBroken {
 			return
 		}
 	}
@@ -589,8 +596,14 @@ func m3Random(sc *m3Scenario, tr, side *Trace, st *m3Stats, n int, rng *rand.Ran
 		}
 		ev, steps, stuck := m3Execute(sc, choose)
 		m3Emit(tr, side, sc, ev, steps, stuck, st)
+		if st.broken >= m3MaxBroken {
+			return
+		}
 	}
 }
+
+// a scenario is not explored further once this many of its executions ended in a deadlock or a panic (the point is made)
+const m3MaxBroken = 20
 
 type m3Set struct {
 	sc   *m3Scenario
